@@ -78,6 +78,10 @@ class UserMove(Logged):
             atoms.positions[int(context.rng.integers(len(atoms)))] += context.rng.uniform(-0.2, 0.2, 3)
         elif self.behaviour == "cell":
             atoms.set_cell(atoms.cell.array * float(np.exp(context.rng.uniform(-0.03, 0.03))), scale_atoms=True)
+        elif self.behaviour == "shear":  # volume-preserving change of the cell
+            c = atoms.cell.array.copy()
+            c[1] += float(context.rng.uniform(-0.05, 0.05)) * c[0]
+            atoms.set_cell(c, scale_atoms=True)
         return RESULTS[self.result]
 
     def on_atoms_changed(self, added_indices, removed_indices):
@@ -166,7 +170,7 @@ def run(spec):
             s["table"].append({"name": "x", "move": {"t": "E"}, "criteria": "random:0.7"})
         if driver in ("Isobaric", "Isotension") and i % 2 == 0:
             neighbour = "cell"
-            s["table"].append({"name": "c", "move": {"t": "C", "op": {"t": "Aniso", "mv": 0.03}}, "criteria": "random:0.7"})
+            s["table"].append({"name": "c", "move": {"t": "C", "op": {"t": ["Aniso", "Shape", "Iso"][(i // 2) % 3], "mv": 0.03}}, "criteria": "random:0.7"})
         if driver == "HamiltonianCanonical" and i % 2 == 0:
             neighbour = "hamiltonian"
             s["table"].append({"name": "h", "move": {"t": "H", "dt": 1.0, "steps": 3}})
@@ -178,8 +182,8 @@ def run(spec):
         users = []
         nbare = int(rng.integers(1, 3))
         for b in range(nbare):
-            behaviour = str(rng.choice(["displace", "displace", "cell", "noop"]))
-            if driver not in ("Isobaric", "Isotension") and behaviour == "cell":
+            behaviour = str(rng.choice(["displace", "displace", "cell", "shear", "noop"]))
+            if driver not in ("Isobaric", "Isotension") and behaviour in ("cell", "shear"):
                 behaviour = "displace"  # a cell change is a legitimate trial only in the ensembles whose state includes the cell
             res = results[(i + b * 5 + spec["j"] * 3) % len(results)]
             mv = UserMove(behaviour, res, tag=b)
